@@ -663,3 +663,44 @@ pub fn raw_driver(data: &[u8], _ctx: &[Vec<u8>], a: [u32; 3], w: &mut Walker) {
         w.tagb(0xFF);
     }
 }
+
+// ------------------------------------------------------------------------------------------
+// TrueType bytecode decoding (fpgm / prep / glyph instructions): data = a program
+// ------------------------------------------------------------------------------------------
+
+pub fn bytecode_driver(data: &[u8], _ctx: &[Vec<u8>], _a: [u32; 3], w: &mut Walker) {
+    use read_fonts::tables::glyf::bytecode::{decode_all, Decoder};
+    // every instruction consumes at least one byte: the iterator cannot yield more items than the program has bytes
+    let lim = data.len() as u64 + 2;
+    for pc in [0usize, 1, data.len().saturating_sub(1), data.len(), data.len() + 1] {
+        let mut n = 0u64;
+        for ins in decode_all(data, pc) {
+            n += 1;
+            match ins {
+                Ok(i) => {
+                    w.h.u64(((i.opcode as u8 as u64) << 32) | i.pc as u64);
+                    for v in i.inline_operands.values().take(256) {
+                        w.h.i64(v as i64);
+                    }
+                }
+                Err(_) => w.h.byte(0xEE),
+            }
+            if n > lim {
+                crate::drivers::report_overrun("bytecode::decode_all yields more instructions than the program has bytes", n);
+                break;
+            }
+        }
+        w.calls += n;
+        w.nodes += n / 4;
+        w.u(n);
+        let mut d = Decoder::new(data, pc);
+        for _ in 0..3 {
+            match d.decode() {
+                Some(Ok(i)) => w.u(i.opcode as u8 as u64),
+                Some(Err(_)) => w.tagb(0),
+                None => w.tagb(2),
+            }
+        }
+        w.u(d.pc as u64);
+    }
+}
